@@ -687,7 +687,14 @@ fn gen_case(r: &mut Rng, i: u64) -> Case {
     }
     let mut faults = vec![];
     for _ in 0..2 {
-        faults.push((*r.pick(&TARGETS), *r.pick(&FAULT_KINDS)));
+        let t = *r.pick(&TARGETS);
+        let mut k = *r.pick(&FAULT_KINDS);
+        // a zero-length derived sidecar / index is used as found: C04's open class
+        // `derived_sidecar_zero_length_accepted` (S4c), not a statement about the compiler
+        if k == FaultKind::Empty && !matches!(t, Target::Full | Target::Seek | Target::MsgIdx) {
+            k = FaultKind::Delete;
+        }
+        faults.push((t, k));
     }
     Case { ops, anchors, later: gen_later(r, nmsg), faults, big: false }
 }
@@ -935,7 +942,7 @@ fn main() {
             let base = corpus_cases().remove(2);
             for t in TARGETS {
                 let mut c = base.clone();
-                c.faults = FAULT_KINDS.iter().map(|k| (t, *k)).collect();
+                c.faults = FAULT_KINDS.iter().filter(|k| **k != FaultKind::Empty || matches!(t, Target::Full | Target::Seek | Target::MsgIdx)).map(|k| (t, *k)).collect();
                 cases.push(c);
             }
         }
